@@ -257,6 +257,8 @@ class BitArray(Bits):
         n -- The number of concatenations. Must be >= 0.
 
         """
+        if not isinstance(n, numbers.Integral):
+            raise TypeError(f"Can only multiply a bitstring by an integer, not '{type(n).__name__}'.")
         if n < 0:
             raise ValueError("Cannot multiply by a negative integer.")
         return self._imul(n)
